@@ -28,6 +28,41 @@ def get_distribution(distribution_text):
     raise RuntimeError(f"Unknown distribution type {distribution_text}.")
 
 
+def _integer_ppf(distribution, q, *args):
+    """
+    Percent point function of a discrete distribution on the integers:
+    the smallest integer of the support, whose cumulative probability reaches `q`.
+
+    The generic bisection of `scipy.stats.rv_discrete` starts from a non-integer bracket
+    and stops with a `RuntimeError` for some quantiles.
+    """
+
+    def single(q, *args):
+        lower, upper = distribution._get_support(*args)
+        lower = int(np.ceil(lower))
+        if distribution._cdf(lower, *args) >= q:
+            return lower
+        # Find an integer bracket: cdf(low) < q <= cdf(high)
+        low = lower
+        step = 1
+        high = low + step
+        while distribution._cdf(high, *args) < q:
+            if high >= upper or step > 2**60:
+                return high
+            low = high
+            step *= 2
+            high = low + step
+        while high - low > 1:
+            mid = (low + high) // 2
+            if distribution._cdf(mid, *args) < q:
+                low = mid
+            else:
+                high = mid
+        return high
+
+    return np.vectorize(single, otypes="d")(q, *args)
+
+
 class Distribution(BigSMILESbase):
     """
     Generic class to generate molecular weight numbers.
@@ -99,6 +134,9 @@ class FlorySchulz(Distribution):
         def _pmf(self, k, a):
             return a**2 * k * (1 - a) ** (k - 1)
 
+        def _ppf(self, q, a):
+            return _integer_ppf(self, q, a)
+
     def __init__(self, raw_text):
         """
         Initialization of Flory-Schulz distribution object.
@@ -160,6 +198,9 @@ class SchulzZimm(Distribution):
 
         def _pmf(self, M, z, Mn):
             return z ** (z + 1) / special.gamma(z + 1) * M ** (z - 1) / Mn**z * np.exp(-z * M / Mn)
+
+        def _ppf(self, q, z, Mn):
+            return _integer_ppf(self, q, z, Mn)
 
     def __init__(self, raw_text):
         """
